@@ -7,3 +7,4 @@ INVARIANT ForwardOK
 INVARIANT SeqOK
 INVARIANT RankOK
 INVARIANT OtherOK
+INVARIANT Drift_Refusal
